@@ -447,6 +447,9 @@ theorem phase_step (s : Sys F) (e : Ev) (hnr : e.isReload = false) (j : Nat) (l 
   | failNext c =>
     obtain ⟨l', hl', hs⟩ := (Hk.step_link s (.failNext c) rfl).1 j l hl
     exact ⟨l', hl', hgen l' hl' hs (fun _ _ _ h => by cases h)⟩
+  | failAfter c kfa =>
+    obtain ⟨l', hl', hs⟩ := (Hk.step_link s (.failAfter c kfa) rfl).1 j l hl
+    exact ⟨l', hl', hgen l' hl' hs (fun _ _ _ h => by cases h)⟩
   | failBind c =>
     obtain ⟨l', hl', hs⟩ := (Hk.step_link s (.failBind c) rfl).1 j l hl
     exact ⟨l', hl', hgen l' hl' hs (fun _ _ _ h => by cases h)⟩
